@@ -75,6 +75,29 @@ func (w *verifWorld) preStreams(pre *verifSnap, r *subConnRef) int32 {
 	return v
 }
 
+// pickKnown registers the predicates of the known findings a Pick can run into on this tree
+// (DESIGN.md section 7); each characterises the failing inputs.
+func (w *verifWorld) pickKnown(c *verifCall) {
+	gb := w.gb
+	nP := len(c.p.scRefs)
+	homeReady, bound, hadFb := false, false, false
+	if c.keyed {
+		homeReady = w.ready(w.home(c.key))
+		_, bound = gb.affinityMap[c.key]
+		_, hadFb = gb.fallbackMap[c.key]
+	}
+	fallback := gb.cfg.ChannelPool.FallbackToReady
+	verifKnown("F-keys0", c.hasCfg && c.cmd != pb.AffinityConfig_BIND && c.ctx.hasGcp && c.req != nil && len(c.req.Keys) == 0 && nP > 0)
+	fbPath := c.keyed && bound && !homeReady && fallback && !hadFb && nP > 0
+	_, curIsGcp := gb.picker.(*gcpPicker)
+	curEmpty := false
+	if gp, ok := gb.picker.(*gcpPicker); ok {
+		curEmpty = len(gp.scRefs) == 0
+	}
+	verifKnown("F-fbpanic", fbPath && (!curIsGcp || curEmpty))
+	verifKnown("F-relock-2", fbPath)
+}
+
 // placedOn returns the universe slot whose counter went up by one between the snapshots (nil if none).
 func (w *verifWorld) placedOn(pre, post *verifSnap) (*subConnRef, int32) {
 	var on *subConnRef
@@ -128,16 +151,7 @@ func VerifH_pick() {
 	errPath := c.hasCfg && c.cmd != pb.AffinityConfig_BIND && c.ctx.hasGcp && (c.req == nil || len(c.req.Keys) == 0)
 	unkeyedPath := nP > 0 && !errPath && !(c.keyed && bound) // the pick takes the least-loaded path
 
-	// known findings on this tree (DESIGN.md section 7); each predicate characterises the failing inputs
-	verifKnown("F-keys0", c.hasCfg && c.cmd != pb.AffinityConfig_BIND && c.ctx.hasGcp && c.req != nil && len(c.req.Keys) == 0 && nP > 0)
-	fbPath := c.keyed && bound && !homeReady && fallback && !hadFb && nP > 0
-	_, curIsGcp := gb.picker.(*gcpPicker)
-	curEmpty := false
-	if gp, ok := gb.picker.(*gcpPicker); ok {
-		curEmpty = len(gp.scRefs) == 0
-	}
-	verifKnown("F-fbpanic", fbPath && (!curIsGcp || curEmpty))
-	verifKnown("F-relock-2", fbPath)
+	w.pickKnown(c)
 
 	verifReach("before")
 	res, err := p.Pick(balancer.PickInfo{FullMethodName: c.method, Ctx: c.ctx})
@@ -213,6 +227,7 @@ func VerifH_pick() {
 		changedFb := post.hasFb[x] != pre.hasFb[x] || (pre.hasFb[x] && post.fb[x] != pre.fb[x])
 		verifAssert(verifImplies(changedFb, c.keyed && c.key == w.keys[x] && bound && !homeReady && fallback), "C08: a pick changed the stand-in of a key it was not called for")
 	}
+	verifAssert(post.rr == pre.rr, "C09: a call that is not a round-robin BIND moved the round-robin cursor")
 	w.assertInv()
 	verifObserve("err", verifB2U(err != nil))
 	verifObserve("created", uint64(cc.created))
